@@ -85,13 +85,13 @@ def case(ctx, rnd, i):
     if r < 0.5:
         sch = schemas.get(rnd.choice(schemas.ids()))
     else:
-        sch = schemas.random_schema(rnd)
+        sch = schemas.mark_schema(rnd) if r < 0.8 else schemas.random_schema(rnd)
         if sch is None:
             ctx.count("schema_gen_failed")
             return
     stepmon.register(sch)
     S, rs, leaf = sch.schema, sch.ref, sch.leaf
-    g = gen.DocGen(sch, rnd, wide=0.2, mark_p=0.4)
+    g = gen.DocGen(sch, rnd, wide=0.2, mark_p=rnd.choice([0.3, 0.5, 0.7]))
     d, p = g.doc(rnd.choice([16, 24, 36, 50, 60]))
     tk = flat.toks(p[4], leaf)
     n = len(tk)
@@ -101,10 +101,13 @@ def case(ctx, rnd, i):
     sid = sch.cls if sch.cls == "random" else sch.id
     if i % 20 == 0:
         ctx.sample({"schema": sch.id, "doc": str(d)[:200]})
+    marky = getattr(sch, "spec", None) is not None and all(k.startswith(("p", "q", "doc", "text", "i")) for k in sch.spec["nodes"]) and "p0" in sch.spec["nodes"]
     for _ in range(40):
-        op = rnd.choice(OPS)
+        op = rnd.choice(OPS) if not marky or rnd.random() < 0.3 else rnd.choice(["add_mark", "add_mark", "remove_mark"])
         a = rnd.randint(0, n)
         b = min(n, a + rnd.choice([0, 1, 2, 3, 5, 8, 13, n]))
+        if marky and rnd.random() < 0.4:
+            a, b = rnd.randint(0, min(3, n)), n
         tr = Transform(d)
         ctx.count("ops")
         ctx.ev()
